@@ -1036,22 +1036,23 @@ pub fn c14(_a: &Args) -> (Stats, String) {
         }
     }
     // every configuration: float powers of ten used by the fast path (table, std powf, bundled libm)
-    for k in 0..=<f64 as Float>::MAX_EXPONENT_FAST_PATH as u32 {
+    // every power the fast path can consume: multiplication up to MAX_EXPONENT_FAST_PATH, division up to
+    // -MIN_EXPONENT_FAST_PATH (the ranges are read from the crate, so widening a limit widens the check)
+    let k64 = <f64 as Float>::MAX_EXPONENT_FAST_PATH.max(-<f64 as Float>::MIN_EXPONENT_FAST_PATH) as u32;
+    let k32 = <f32 as Float>::MAX_EXPONENT_FAST_PATH.max(-<f32 as Float>::MIN_EXPONENT_FAST_PATH) as u32;
+    for k in 0..=k64 {
         note(&mut st, 1);
         let v = unsafe { <f64 as Float>::pow_fast_path(k as usize) };
         if !f_bits_exact(v.to_bits(), mlxcore::exact::F64, k) {
             c14_bad(&mut st, format!("<f64 as Float>::pow_fast_path({})", k), format!("{:#x}", v.to_bits()), "10^k exactly".into());
         }
     }
-    for k in 0..=<f32 as Float>::MAX_EXPONENT_FAST_PATH as u32 {
+    for k in 0..=k32 {
         note(&mut st, 1);
         let v = unsafe { <f32 as Float>::pow_fast_path(k as usize) };
         if !f_bits_exact(v.to_bits() as u64, mlxcore::exact::F32, k) {
             c14_bad(&mut st, format!("<f32 as Float>::pow_fast_path({})", k), format!("{:#x}", v.to_bits()), "10^k exactly".into());
         }
-    }
-    if <f64 as Float>::MAX_EXPONENT_FAST_PATH != 22 || <f32 as Float>::MAX_EXPONENT_FAST_PATH != 10 {
-        st.machinery("MAX_EXPONENT_FAST_PATH changed: the C14 float-power range follows the crate's constant".into());
     }
     // on-demand integer powers: 5^n through bigint::pow(1, n), n < 28 (and the 27-step), 10^d through parse_mantissa chunks
     for n in 0..=200u32 {
